@@ -6,6 +6,7 @@ import (
 	"fmt"
 	"os"
 	"reflect"
+	"strings"
 	"time"
 )
 
@@ -127,6 +128,11 @@ func (s *Schema) initialize(db *DB, o Object) (err error) {
 
 	// initialize object associtated to the schema
 	s.object = o
+
+	// object files live in the directory of the collection
+	if strings.ContainsAny(s.Extension, `/\`) {
+		return fmt.Errorf("%w: extension %q holds a path separator", ErrBadSchema, s.Extension)
+	}
 
 	// initialize fields
 	if s.Fields == nil {
@@ -310,6 +316,18 @@ func (s *Schema) control() (err error) {
 		}
 		if cast, ok := fd.castOk(); !ok || cast != fi.Cast {
 			return fmt.Errorf("%w: index of field %s (%s) casts to %s", ErrMalformedIndex, fn, fd.Type, fi.Cast)
+		}
+		// an index which does not enforce what its field calls for
+		if fi.Constraints != fd.Constraints {
+			return fmt.Errorf("%w: index of field %s has constraints (%s) instead of (%s)", ErrMalformedIndex, fn, fi.Constraints, fd.Constraints)
+		}
+	}
+
+	for fn, fd := range s.Fields {
+		if fd.Constraints.Index || fd.Constraints.Unique {
+			if _, ok := s.ObjectIndex.Fields[fn]; !ok {
+				return fmt.Errorf("%w: field %s (%s) has no index", ErrMalformedIndex, fn, fd.Constraints)
+			}
 		}
 	}
 
